@@ -49,7 +49,7 @@ def enumerate_cases(tier, scope):
         yield {'kind': 'create_task', 'fn': fn}
         yield {'kind': 'create_task', 'fn': fn, 'thread': True}
         yield {'kind': 'create_task', 'fn': fn, 'implicit_loop': True}
-    for what in ('rpc', 'broadcast', 'task'):
+    for what in ('rpc', 'broadcast', 'task', 'task_noreply'):
         yield {'kind': 'comm_thread', 'what': what}
         yield {'kind': 'comm_thread', 'what': what, 'implicit_loop': True}
     for fn in ('value', 'raise'):
@@ -341,6 +341,8 @@ def _run_comm_thread(case, v):
         def send():
             if case['what'] == 'rpc':
                 box['fut'] = comm.rpc_send('r1', 'hello')
+            elif case['what'] == 'task_noreply':
+                box['noreply'] = comm.task_send('hello', no_reply=True)
             elif case['what'] == 'broadcast':
                 comm.broadcast_send('hello', sender='s', subject='subj')
             else:
@@ -361,6 +363,12 @@ def _run_comm_thread(case, v):
         if loop.wakeups <= before:
             v('loop-not-woken', f"a {case['what']} message delivered from another thread did not wake the event loop")
         loop.drain()
+        if case['what'] == 'task_noreply':
+            if box.get('noreply') is not None:
+                v('no-reply-flag-dropped', f"task_send(..., no_reply=True) through the loop communicator handed back {box.get('noreply')!r}: the wrapped communicator was asked for a reply")
+            if [s[0] for s in seen] != ['task']:
+                v('message-not-handled', f'subscriber calls: {seen}')
+            return
         if [s[0] for s in seen] != [case['what']]:
             v('message-not-handled', f'subscriber calls: {seen}')
         if 'fut' in box:
